@@ -15,6 +15,7 @@
 -/
 import Cpf.Query.Cli
 import Cpf.Lemmas.LexLayoutQ
+import Cpf.Props.C18
 
 namespace Cpf.Props.C14
 open Cpf.Query Cpf.Go Cpf.Generated
@@ -108,6 +109,139 @@ open Cpf.Lemmas.LexLayoutQ in
 example : relayoutB 100 "FROM a AS b WHERE b.x()==\"q r\"&&b.y() in [\"z\"] SELECT b".toList
     "FROM a\tAS b\n  WHERE b . x ( )  == \"q r\" &&\r\n b.y() in [ \"z\" ]\nSELECT b\n".toList = true := by
   decide
+
+/-! ### rule files: the readers join the lines by blanks -/
+
+section Readers
+open Cpf.Lemmas.LexLayout Cpf.Lemmas.LexLayoutQ
+open Cpf.Props.C18 (nl2sp)
+
+/-- `Relayout`, with two more demands that make the layout safe to flatten line by line: no token holds a line feed
+    (the recorded finding C18:newline-in-string-literal is about those that do), and no run of white space begins the
+    ` in ` token once its line feeds are blanks (`x⏎in y` is not `x in y`: recorded finding C14:in-whitespace). -/
+inductive RelayoutNL : List Char → List Char → Prop
+  | nil : RelayoutNL [] []
+  | gap (ws ws' : List Char) {s s' : List Char} : allWs ws = true → allWs ws' = true → ws' ≠ [] →
+      tight s = true → tight s' = true → (ws ≠ [] → inP (ws ++ s) = false) → inP (ws' ++ s') = false →
+      inP (nl2sp ws' ++ nl2sp s') = false →
+      RelayoutNL s s' → RelayoutNL (ws ++ s) (ws' ++ s')
+  | tok (c : Char) (l : List Char) (r : LexRule) (lv : Nat) {s s' : List Char} : isWs c = false →
+      bestRule lexRules (c :: l ++ s) none 0 = (some (r, (c :: l).length), lv) →
+      (∀ x ∈ c :: l, x ≠ '\n') →
+      RelayoutNL s s' → RelayoutNL (c :: l ++ s) (c :: l ++ s')
+  | tokIn {s s' : List Char} : RelayoutNL s s' → RelayoutNL (inTok ++ s) (inTok ++ s')
+
+theorem RelayoutNL.relayout {s s' : List Char} (h : RelayoutNL s s') : Relayout s s' := by
+  induction h with
+  | nil => exact .nil
+  | gap ws ws' hw hw' hne hs hs' hin hin' _ _ ih => exact .gap ws ws' hw hw' hne hs hs' hin hin' ih
+  | tok c l r lv hc hb _ _ ih => exact .tok c l r lv hc hb ih
+  | tokIn _ ih => exact .tokIn ih
+
+theorem nl2sp_append (a b : List Char) : nl2sp (a ++ b) = nl2sp a ++ nl2sp b := by
+  simp [nl2sp]
+
+theorem nl2sp_id (a : List Char) (h : ∀ x ∈ a, x ≠ '\n') : nl2sp a = a := by
+  induction a with
+  | nil => rfl
+  | cons c cs ih =>
+    have hc : c ≠ '\n' := h c (by simp)
+    have : (c == '\n') = false := by simpa using hc
+    simp only [nl2sp, List.map_cons, this, Bool.false_eq_true, if_false]
+    congr 1
+    exact ih (fun x hx => h x (by simp [hx]))
+
+theorem isWs_nl2sp_char (c : Char) : isWs (if c == '\n' then ' ' else c) = isWs c := by
+  by_cases h : c = '\n'
+  · subst h; decide
+  · have : (c == '\n') = false := by simpa using h
+    simp [this]
+
+theorem allWs_nl2sp (ws : List Char) (h : allWs ws = true) : allWs (nl2sp ws) = true := by
+  induction ws with
+  | nil => rfl
+  | cons c cs ih =>
+    simp only [allWs, List.all_cons, Bool.and_eq_true] at h
+    simp only [allWs, nl2sp, List.map_cons, List.all_cons, Bool.and_eq_true, isWs_nl2sp_char]
+    exact ⟨h.1, ih h.2⟩
+
+theorem tight_nl2sp (s : List Char) (h : tight s = true) : tight (nl2sp s) = true := by
+  cases s with
+  | nil => rfl
+  | cons c cs =>
+    simp only [tight, nl2sp, List.map_cons, isWs_nl2sp_char] at h ⊢
+    exact h
+
+/-- line feeds turned into blanks: still a re-layout of the same tight text -/
+theorem RelayoutNL.flatten {s s' : List Char} (h : RelayoutNL s s') : Relayout s (nl2sp s') := by
+  induction h with
+  | nil => exact .nil
+  | gap ws ws' hw hw' hne hs hs' hin _ hin2 _ ih =>
+      rw [nl2sp_append]
+      refine .gap ws (nl2sp ws') hw (allWs_nl2sp ws' hw') ?_ hs (tight_nl2sp _ hs') hin hin2 ih
+      intro h0
+      apply hne
+      cases ws' with
+      | nil => rfl
+      | cons a b => simp [nl2sp] at h0
+  | tok c l r lv hc hb hnl _ ih =>
+      rename_i s0 s0' _
+      have : nl2sp (c :: l ++ s0') = c :: l ++ nl2sp s0' := by
+        rw [show (c :: l ++ s0' : List Char) = (c :: l) ++ s0' from rfl, nl2sp_append, nl2sp_id (c :: l) hnl]
+      rw [this]
+      exact .tok c l r lv hc hb ih
+  | tokIn _ ih =>
+      rename_i s0 s0' _
+      have : nl2sp (inTok ++ s0') = inTok ++ nl2sp s0' := by
+        rw [nl2sp_append, nl2sp_id inTok (by decide)]
+      rw [this]
+      exact .tokIn ih
+
+/-- **C14 ∘ C18**: a query file whose text (followed by a line end) is a flatten-safe layout of the tight text `t`:
+    what the `ci` reader joins from its lines has the tokens of `t` — and of the file's own text. -/
+theorem C14_reader_tokens (t s : List Char) (h : RelayoutNL t (s ++ ['\n'])) :
+    lex lexRules (Cpf.Props.C18.queryText (Cpf.Go.Str.splitChar '\n' s)) = lex lexRules t ∧
+    lex lexRules (s ++ ['\n']) = lex lexRules t := by
+  constructor
+  · rw [Cpf.Props.C18.C18_joined_lines]
+    have : nl2sp s ++ [' '] = nl2sp (s ++ ['\n']) := by simp [nl2sp]
+    rw [this]
+    exact (C14_lex_layout t _ h.flatten).symm
+  · exact (C14_lex_layout t _ h.relayout).symm
+
+/-- a token step whose rule and liveness count are computed rather than given -/
+theorem RelayoutNL.tok' (c : Char) (l : List Char) {s s' : List Char} (hc : isWs c = false)
+    (hb : (bestRule lexRules (c :: l ++ s) none 0).1.map Prod.snd = some (c :: l).length)
+    (hnl : ∀ x ∈ c :: l, x ≠ '\n') (h : RelayoutNL s s') : RelayoutNL (c :: l ++ s) (c :: l ++ s') := by
+  cases hb' : bestRule lexRules (c :: l ++ s) none 0 with
+  | mk a lv =>
+    rw [hb'] at hb
+    cases a with
+    | none => simp at hb
+    | some rn =>
+        obtain ⟨r, n⟩ := rn
+        simp only [Option.map_some, Option.some.injEq] at hb
+        subst hb
+        exact .tok c l r lv hc hb' hnl h
+
+/-- Non-vacuity: the file `a⏎.b(⏎)⏎` (a call wrapped over three lines) is a flatten-safe layout of `a.b()`. -/
+example : RelayoutNL ['a', '.', 'b', '(', ')'] (['a', '\n', '.', 'b', '(', '\n', ')'] ++ ['\n']) := by
+  refine RelayoutNL.tok' 'a' [] (s := ['.', 'b', '(', ')']) (s' := ['\n', '.', 'b', '(', '\n', ')', '\n']) (by decide) (by decide) (by decide) ?_
+  refine RelayoutNL.gap [] ['\n'] (s := ['.', 'b', '(', ')']) (s' := ['.', 'b', '(', '\n', ')', '\n']) (by decide) (by decide) (by decide)
+    (by decide) (by decide) (by decide) (by decide) (by decide) ?_
+  refine RelayoutNL.tok' '.' [] (s := ['b', '(', ')']) (s' := ['b', '(', '\n', ')', '\n']) (by decide) (by decide) (by decide) ?_
+  refine RelayoutNL.tok' 'b' [] (s := ['(', ')']) (s' := ['(', '\n', ')', '\n']) (by decide) (by decide) (by decide) ?_
+  refine RelayoutNL.tok' '(' [] (s := [')']) (s' := ['\n', ')', '\n']) (by decide) (by decide) (by decide) ?_
+  refine RelayoutNL.gap [] ['\n'] (s := [')']) (s' := [')', '\n']) (by decide) (by decide) (by decide)
+    (by decide) (by decide) (by decide) (by decide) (by decide) ?_
+  refine RelayoutNL.tok' ')' [] (s := []) (s' := ['\n']) (by decide) (by decide) (by decide) ?_
+  exact RelayoutNL.gap [] ['\n'] (s := []) (s' := []) (by decide) (by decide) (by decide)
+    (by decide) (by decide) (by decide) (by decide) (by decide) RelayoutNL.nil
+
+/-- The excluded point, in the model: `x⏎in y` and its flattened text `x in y` are different token sequences. -/
+example : lex lexRules "x\nin y".toList ≠ lex lexRules "x in y".toList := by decide
+
+end Readers
 
 /-- The condition text recorded by the listener is a function of the tokens of the WHERE sub-tree only. -/
 theorem C14_conditionText_tokens (t : Token) :
